@@ -5,6 +5,7 @@ result with the terminal state computed by the TLA+ specification.
 stdlib-only; runs under every interpreter.   usage: m1_driver.py <cases.json> <out.json>
 cases.json: {"NF":..,"NW":..,"NL":.., "cases":[{"tid":..,"root":..,"U":[..],"E":[..],"C":[..],
              "expect":{"pc":..,"out":[..],"leaf":[..],"errors":[..]}}]}"""
+import collections
 import json
 import sys
 import types
@@ -35,6 +36,10 @@ class W:
         # every other synthetic item is FALSY (an empty container): stack items are filtered by identity with None,
         # never by truthiness
         return self.i % 2
+
+
+# "a sequence" is any collections.abc.Sequence: hooks return their results in all of these
+SEQ_TYPES = [list, tuple, collections.deque, collections.UserList]
 
 
 class World:
@@ -103,7 +108,7 @@ class World:
         if k == "one":
             return xs[0]
         if k == "seq":
-            return tuple(xs) if (self.variant + w.i) % 2 else list(xs)
+            return SEQ_TYPES[(self.variant + w.i) % len(SEQ_TYPES)](xs)
         fail = k == "iterfail"
 
         @stackscope.yields_frames
@@ -127,10 +132,10 @@ class World:
             xs = [self.obj(x) for x in r["xs"]]
             if k == "insert":
                 xs.append(next_inner)
-                return tuple(xs) if (self.variant + f) % 2 else list(xs)
+                return SEQ_TYPES[(self.variant + f) % len(SEQ_TYPES)](xs)
             if len(xs) == 1 and self.variant % 3 == 0:
                 return xs[0]
-            return tuple(xs) if (self.variant + f) % 2 else list(xs)
+            return SEQ_TYPES[(self.variant + f) % len(SEQ_TYPES)](xs)
 
         return elab
 
